@@ -27,6 +27,13 @@ use crate::{
     query::QueryID,
 };
 
+#[cfg(feature = "verif_hooks")]
+pub(crate) use database::CompressedBackwardEdgeSet;
+#[cfg(feature = "verif_hooks")]
+pub(crate) use query_lock_manager::{
+    QueryLock, QueryLockManager as VerifLockTable,
+};
+
 mod backward_projection;
 mod caller;
 mod computing;
